@@ -170,6 +170,9 @@ def _order_insensitive_stmts(body: List[ast.stmt], cls_methods: Dict[str, ast.Fu
     return True
 
 
+_MUTATORS_P5 = {"setdefault", "update", "pop", "popitem", "append", "extend", "insert", "add", "clear", "remove", "discard", "sort", "reverse"}
+
+
 @rule("P5", "DETERMINISM: no iteration over a set reaches the output unsorted; no nondeterministic source; no state kept between calls", ["C12"], floor=3)
 def p5(ctx: Ctx):
     py = pyfacts(ctx)
@@ -370,6 +373,24 @@ def p5(ctx: Ctx):
                             shadow = any(isinstance(a, ast.Assign) and any(isinstance(tt, ast.Name) and tt.id == t.value.id for tt in a.targets) for a in ast.walk(fn))
                             if not shadow:
                                 ctx.ob(f"{m.rel}:{fn.name}:{t.value.id}[]", False, f"module-level container `{t.value.id}` is written: state carried between calls", file=m.rel, line=n.lineno)
+        # module-level one-shot iterators (a generator expression, iter(), map(), filter(), zip() ...) read inside a function:
+        # the first call consumes them, every later call sees them empty
+        for gname, v in sorted(m.assigns.items()):
+            oneshot = isinstance(v, ast.GeneratorExp) or (isinstance(v, ast.Call) and isinstance(v.func, ast.Name) and v.func.id in ("iter", "map", "filter", "zip", "enumerate", "reversed", "chain", "islice"))
+            if not oneshot:
+                continue
+            users = [fn for fn in ast.walk(m.tree) if isinstance(fn, ast.FunctionDef) and any(isinstance(x, ast.Name) and x.id == gname and isinstance(x.ctx, ast.Load) for x in ast.walk(fn))]
+            if users:
+                ctx.ob(f"{m.rel}:{gname}:one-shot", False, f"module-level `{gname}` is a one-shot iterator (`{unparse(v)[:50]}`) read inside `{users[0].name}`: the first call in a process consumes it, later calls find it empty and produce different output from the same input", file=m.rel, line=v.lineno)
+        # module-level instances of classes that keep state in attributes set outside __init__, used inside functions
+        for gname, v in sorted(m.assigns.items()):
+            if not (isinstance(v, ast.Call) and isinstance(v.func, ast.Name) and v.func.id in py.classes):
+                continue
+            cinfo = py.classes[v.func.id]
+            stateful = [f"{c2.name}.{mn}" for c2 in py.mro(v.func.id) for mn, mf in c2.methods.items() if mn != "__init__" and any(isinstance(a, (ast.Assign, ast.AugAssign)) and any(is_self_attr(t) for t in (a.targets if isinstance(a, ast.Assign) else [a.target])) for a in ast.walk(mf))] + [f"{c2.name}.{mn}" for c2 in py.mro(v.func.id) for mn, mf in c2.methods.items() if mn != "__init__" and any(isinstance(c, ast.Call) and isinstance(c.func, ast.Attribute) and c.func.attr in _MUTATORS_P5 and is_self_attr(c.func.value) for c in ast.walk(mf))]
+            users = [fn for fn in ast.walk(m.tree) if isinstance(fn, ast.FunctionDef) and any(isinstance(x, ast.Name) and x.id == gname and isinstance(x.ctx, ast.Load) for x in ast.walk(fn))]
+            if stateful and users:
+                ctx.ob(f"{m.rel}:{gname}:shared-instance", False, f"module-level `{gname}` is one `{v.func.id}` object shared by every call of `{users[0].name}`; `{stateful[0]}` stores into it, and nothing resets it: what one conversion records is still there in the next", file=m.rel, line=v.lineno)
         for ci in m.classes.values():
             for st in ci.node.body:
                 if isinstance(st, (ast.Assign, ast.AnnAssign)):
